@@ -19,5 +19,6 @@ CHECKS = {
     "C11": (chain_checks.c11, chain_checks.replay_chain),
     "C17": (write_checks.c17, write_checks.replay_writing),
     "C18": (server_checks.c18, server_checks.replay_server),
+    "C19": (misc_checks.c19, misc_checks.replay_generic),
     "C20": (misc_checks.c20, misc_checks.replay_generic),
 }
